@@ -176,19 +176,26 @@ def check_parametrize_wiring(ctx: Check, tree: Tree) -> None:
     for cls_name in ("NonRelativisticKMatrix", "RelativisticKMatrix"):
         fn = tree.func(f"{MOD}::{cls_name}.formulate")
         hits = []
-        for node in walk_function(fn.node):
-            if isinstance(node, ast.DictComp) and isinstance(node.key, ast.Subscript) and isinstance(node.value, ast.Call):
-                callee = tree.callee(node.value, fn)
-                if callee and callee.endswith(".parametrization"):
-                    hits.append((node, callee))
+        for n_ in walk_function(fn.node):
+            # an item of a dict comprehension, or a store `substitutions[K[i, j]] = parametrization(...)`
+            if isinstance(n_, ast.DictComp) and isinstance(n_.key, ast.Subscript) and isinstance(n_.value, ast.Call):
+                key, value = n_.key, n_.value
+            elif (isinstance(n_, ast.Assign) and len(n_.targets) == 1 and isinstance(n_.targets[0], ast.Subscript)
+                  and isinstance(n_.targets[0].slice, ast.Subscript) and isinstance(n_.value, ast.Call)):
+                key, value = n_.targets[0].slice, n_.value
+            else:
+                continue
+            callee = tree.callee(value, fn)
+            if callee and callee.endswith(".parametrization"):
+                hits.append((n_, key, value, callee))
         if not hits:
             raise AnalysisError(f"{fn.qual}: no {{K[i, j]: parametrization(...)}} substitution found")
-        for node, callee in hits:
-            kw = {k.arg: unparse(k.value) for k in node.value.keywords}
-            idx = unparse(node.key.slice)
+        for node, key_, value_, callee in hits:
+            kw = {k.arg: unparse(k.value) for k in value_.keywords}
+            idx = unparse(key_.slice)
             ok = callee == f"{MOD}::{cls_name}.parametrization" and idx.replace(" ", "").strip("()") == f"{kw.get('i')},{kw.get('j')}"
             ctx.verdict(ok, "R-WIRING", f"{fn.qual}::K[i,j]->parametrization", tree.loc(node),
-                        f"{cls_name}.formulate: {unparse(node.key)} -> {callee.split('::')[-1]}(i={kw.get('i')}, j={kw.get('j')})",
+                        f"{cls_name}.formulate: {unparse(key_)} -> {callee.split('::')[-1]}(i={kw.get('i')}, j={kw.get('j')})",
                         None if ok else "matrix element and parametrisation indices disagree (transposed or foreign K)")
 
 
